@@ -104,6 +104,8 @@ func GenOraclePlan(p *PRNG, cfg Config, o OracleGenOpts) Plan {
 							op.M = 100 // wrong source id
 						case 7:
 							op.E = 99 // wrong decimal
+						case 8:
+							op.M = int(SigNoSignerInfo)
 						}
 					}
 					b.Ops = append(b.Ops, op)
